@@ -643,6 +643,23 @@ struct CmpVertInf
         {
             return u->point.y < v->point.y;
         }
+        // Order vertices at the same position by their ID and then by
+        // whether they mark a shape edge, rather than by pointer value,
+        // so the order doesn't depend on where they were allocated.
+        if (u->id != v->id)
+        {
+            // Dummy orthogonal vertices are ordered after other vertices.
+            if ((u->id == dummyOrthogID) || (v->id == dummyOrthogID))
+            {
+                return (v->id == dummyOrthogID);
+            }
+            return u->id < v->id;
+        }
+        if (u->id.isOrthShapeEdge() != v->id.isOrthShapeEdge())
+        {
+            return u->id.isOrthShapeEdge();
+        }
+        // Only otherwise identical dummy vertices should get to here.
         return u < v;
     }
 };
